@@ -1,17 +1,18 @@
 (* C03 — pinned property theorems. Statements, `exact`, Print Assumptions and non-vacuity
    Examples only. The pins in tools/pins/C03.v re-check the statements.
 
-   How the pieces compose (the composition itself is an argument, not a Coq theorem — see
-   level_note in tools/props.py): the codec theorems say a well-formed message survives
-   encode/decode; C03_writer_exact and C03_frame_exact say that for EVERY write script and
-   EVERY read script (chunk limits, Pending injections, partial availability) the byte carrier
-   delivers each frame unchanged and the reader consumes exactly the frame and not one byte
-   more; hence the byte-level machines of Model.v (which are what is diffed against the Rust
-   code) behave as the message-level system of Msg.v, for which agreement, termination and a
-   clean hand-over are proved for all dialer lists, all listener sets and all schedules. *)
+   Structure: (1) codec, (2) framing for every fragmentation, (3) the message-level system
+   under an arbitrary scheduler, (4) the projection theorem C03_bytes_project — every run of the
+   byte-level two-ended system of Model.v (tasks, scripted pipes, any poll sequence, any
+   chunking, any Pending injection) is related, poll by poll, to a run of the message-level
+   system — and its consequences for the byte-level model that the harness is diffed against:
+   agreement with the exact indices, clean hand-over, transparency of the application bytes;
+   (5) the message-based (WebRTC) variant, (6) the fallback-name -> main-protocol mapping. *)
 From Coq Require Import List NArith Bool.
 From V.gen Require Consts.
-From V.C03 Require Import Model Msg Proofs MsgRef MsgProofs.
+From V.C03 Require Import Model Msg Proofs UviProofs LsProofs WebRtc WebRtcProofs Fallback.
+From V.C03 Require Import MsgRef MsgProofs MsgInv Chan Dir SimD SimL SimSys BytesThm LazyThm.
+From V.C03 Require Import Work Work2 Live.
 Import ListNotations.
 Open Scope N_scope.
 
@@ -25,6 +26,25 @@ Theorem C03_codec_injective :
   forall m1 m2, wf_msg m1 -> wf_msg m2 -> encode_msg m1 = encode_msg m2 -> m1 = m2.
 Proof. exact codec_injective. Qed.
 Print Assumptions C03_codec_injective.
+
+(* the ls response (Message::Protocols), incl. the MAX_PROTOCOLS bound; names inside an ls
+   response may contain newlines *)
+Theorem C03_ls_roundtrip :
+  forall ps, Forall wf_entry ps -> N.of_nat (length ps) <= V.gen.Consts.C03_MAX_PROTOCOLS ->
+  decode_msg (encode_msg (MProtos ps)) = DOk (MProtos ps).
+Proof. exact ls_roundtrip. Qed.
+Print Assumptions C03_ls_roundtrip.
+
+Theorem C03_ls_too_many :
+  forall ps, Forall wf_entry ps -> V.gen.Consts.C03_MAX_PROTOCOLS < N.of_nat (length ps) ->
+  decode_msg (encode_msg (MProtos ps)) = DErr ETooMany.
+Proof. exact ls_too_many. Qed.
+Print Assumptions C03_ls_too_many.
+
+Theorem C03_varint_roundtrip :
+  forall n t, n < 2 ^ 64 -> uvi_dec (uvi_enc n ++ t) = Some (n, t).
+Proof. exact uvi_roundtrip. Qed.
+Print Assumptions C03_varint_roundtrip.
 
 (* ---- layer 2: LengthDelimited framing, every fragmentation *)
 (* One poll_next of the reader, from any point inside a frame (pre = bytes of the frame already
@@ -46,7 +66,7 @@ Theorem C03_frame_exact :
     | FErr e => e = IoUnexpectedEof /\ p_closed p = true /\ p_buf p' = [] /\ pre ++ consumed <> []
     | FNone => pre = [] /\ consumed = [] /\ p_buf p = [] /\ p_closed p = true
     end.
-Proof. exact frame_exact_poll. Qed.
+Proof. exact frame_exact_weak. Qed.
 Print Assumptions C03_frame_exact.
 
 (* Writer side: under any write script the carrier receives a prefix of the write buffer, in
@@ -103,6 +123,231 @@ Theorem C03_handover_listener :
 Proof. exact handover_listener. Qed.
 Print Assumptions C03_handover_listener.
 
+(* ---- layer 4: the byte-level system projects onto the message-level system *)
+(* For every V1 case whose dialer names are valid and fit a frame (any listener set, any
+   scripts, any payloads) and every sequence of polls, the reached byte-level state is related
+   (SimSys.Sim: task phases, reader/writer buffers and both pipes vs. phases, channels and
+   write buffers) to a state the message-level system reaches under some schedule. *)
+Theorem C03_bytes_project :
+  forall c who, wf_case c ->
+  exists sched, Sim (c_ds c) (c_ls c) (polls who (sys_init c)) (mrun (c_ls c) sched (minit (c_ds c))).
+Proof. exact bytes_project. Qed.
+Print Assumptions C03_bytes_project.
+
+(* one poll of either side is a finite run of that side's micro-steps *)
+Theorem C03_bytes_poll_sim :
+  forall ds ls, Forall wfn ds -> forall who s m, Sim ds ls s m ->
+  exists k, Sim ds ls (poll_side who s) (mrun ls (repeat (negb who) k) m).
+Proof. exact poll_sim. Qed.
+Print Assumptions C03_bytes_poll_sim.
+
+(* whenever the byte-level dialer task reports success with index i, ds[i] is the first name of
+   its list that the listener supports (exact index, also with duplicate names) *)
+Theorem C03_bytes_dialer_result :
+  forall c who, wf_case c -> forall i, t_res (s_d (polls who (sys_init c))) = (0, i) ->
+  exists p, first_common (c_ds c) (c_ls c) = Some p /\ first_at (c_ds c) (c_ls c) i p.
+Proof. exact dialer_ok_result. Qed.
+Print Assumptions C03_bytes_dialer_result.
+
+Theorem C03_bytes_listener_result :
+  forall c who, wf_case c -> forall j, t_res (s_l (polls who (sys_init c))) = (0, j) ->
+  exists p, first_common (c_ds c) (c_ls c) = Some p /\ lidx 0 (c_ls c) p = Some j.
+Proof. exact listener_ok_result. Qed.
+Print Assumptions C03_bytes_listener_result.
+
+(* a reported failure means there is no common name *)
+Theorem C03_bytes_dialer_failure :
+  forall c who, wf_case c -> forall code i, t_res (s_d (polls who (sys_init c))) = (code, i) ->
+  code <> 0 -> code <> 99 -> first_common (c_ds c) (c_ls c) = None.
+Proof. exact dialer_fail_result. Qed.
+Print Assumptions C03_bytes_dialer_failure.
+
+Theorem C03_bytes_listener_failure :
+  forall c who, wf_case c -> forall code j, t_res (s_l (polls who (sys_init c))) = (code, j) ->
+  code <> 0 -> code <> 99 -> first_common (c_ds c) (c_ls c) = None.
+Proof. exact listener_fail_result. Qed.
+Print Assumptions C03_bytes_listener_failure.
+
+(* transparency at byte level: after a successful negotiation, once both tasks have finished,
+   each side has received exactly the other's application bytes, ended on a clean EOF, and
+   both pipes are empty: the negotiation consumed no application byte and lost none *)
+Theorem C03_bytes_transparent :
+  forall c who, wf_case c ->
+  let s := polls who (sys_init c) in
+  t_done (s_d s) = true -> t_done (s_l s) = true ->
+  forall p, first_common (c_ds c) (c_ls c) = Some p ->
+  t_got (s_l s) = c_dpay c /\ t_got (s_d s) = c_lpay c /\
+  t_end (s_d s) = 0 /\ t_end (s_l s) = 0 /\ p_buf (s_dl s) = [] /\ p_buf (s_ld s) = [].
+Proof. exact transparent. Qed.
+Print Assumptions C03_bytes_transparent.
+
+(* the scheduler the harness uses (script, then alternation, stuck detection): whenever it
+   reports completion (status 0) the final state is fully determined as the property demands *)
+Theorem C03_bytes_run_correct :
+  forall c fuel s st, wf_case c ->
+  run_sys fuel (c_sched c) false 0 (sys_init c) = (s, st) -> st = 0 ->
+  match first_common (c_ds c) (c_ls c) with
+  | Some p =>
+      exists i j, t_res (s_d s) = (0, i) /\ t_res (s_l s) = (0, j) /\
+        first_at (c_ds c) (c_ls c) i p /\ lidx 0 (c_ls c) p = Some j /\
+        t_got (s_l s) = c_dpay c /\ t_got (s_d s) = c_lpay c /\
+        t_end (s_d s) = 0 /\ t_end (s_l s) = 0 /\ p_buf (s_dl s) = [] /\ p_buf (s_ld s) = []
+  | None =>
+      fst (t_res (s_d s)) <> 0 /\ fst (t_res (s_l s)) <> 0
+  end.
+Proof. exact run_sys_correct. Qed.
+Print Assumptions C03_bytes_run_correct.
+
+(* ---- byte-level termination *)
+(* A potential (buffered bytes, bytes in the pipes, remaining script entries, remaining names,
+   phase ranks) never increases under a poll and strictly decreases unless the polled task is
+   blocked and nothing at all changed. This needs no invariant: it holds in every state. *)
+Theorem C03_bytes_poll_work :
+  forall b s, WfS s ->
+  WfS (poll_side b s) /\ Phi (poll_side b s) <= Phi s /\
+  (Phi (poll_side b s) = Phi s -> poll_side b s = s /\ Blocked b s).
+Proof. exact poll_work. Qed.
+Print Assumptions C03_bytes_poll_work.
+
+(* two blocked tasks are two finished tasks: no reachable state of a well-formed V1 case is
+   stuck short of completion *)
+Theorem C03_bytes_no_deadlock :
+  forall ds ls, Forall wfn ds -> forall s m, Sim ds ls s m ->
+  Blocked false s -> Blocked true s ->
+  t_done (s_d s) = true /\ t_done (s_l s) = true.
+Proof. exact no_deadlock. Qed.
+Print Assumptions C03_bytes_no_deadlock.
+
+(* both sides terminate: under every fair poll sequence (K blocks, each polling both sides at
+   least once, K above the initial potential), any chunking and any Pending injection, both
+   tasks finish - and then C03_bytes_transparent / the result theorems apply *)
+Theorem C03_bytes_terminate :
+  forall c, wf_case c -> forall K who,
+  fair K who -> Phi (sys_init c) < N.of_nat K ->
+  t_done (s_d (polls who (sys_init c))) = true /\ t_done (s_l (polls who (sys_init c))) = true.
+Proof. exact bytes_terminate. Qed.
+Print Assumptions C03_bytes_terminate.
+
+(* ---- the optimistic variant (V1Lazy), dialer side *)
+(* byte level: with a single name the future settles on its first poll, header and proposal
+   buffered, no carrier operation *)
+Theorem C03_lazy_immediate :
+  forall d pin pout fuel, wfn d ->
+  d_poll (S (S fuel)) (d_init [d] true) pin pout =
+  (mkDialer (DSendProto 0 d false) [] true rd_init (fr MHeader), pin, pout,
+   NLazy 0 d rd_init (fr MHeader ++ fr (MProto d))).
+Proof. exact lazy_immediate. Qed.
+Print Assumptions C03_lazy_immediate.
+
+(* message level: header, proposal and then application data (for the listener's frame parser
+   an arbitrary sequence `junk` of further frames) are written, then the dialer reads; for
+   every junk, listener set and schedule its verdict is "confirmed" iff the listener supports
+   the name *)
+Theorem C03_lazy_dialer_verdict :
+  forall d ls, starts_slash d = true -> forall junk sched,
+  let m := mrun ls sched (lazy_init d junk) in
+  (forall q, md_ph (sd m) = MDDone (Some q) -> q = d /\ supported ls d = true) /\
+  (md_ph (sd m) = MDDone None -> supported ls d = false).
+Proof. exact lazy_dialer_verdict. Qed.
+Print Assumptions C03_lazy_dialer_verdict.
+
+(* the listener half of agreement does NOT hold for V1Lazy (upstream-documented pitfall) *)
+Theorem C03_lazy_listener_agreement_refuted :
+  exists d ls junk sched,
+    let m := mrun ls sched (lazy_init d junk) in
+    md_ph (sd m) = MDDone None /\ ml_ph (sl m) = MLDone (Some [47; 98]) /\ d <> [47; 98].
+Proof. exact lazy_listener_agreement_refuted. Qed.
+Print Assumptions C03_lazy_listener_agreement_refuted.
+
+(* ---- layer 5: the message-based variant (webrtc_listener_negotiate / WebRtcDialerState) *)
+(* header + proposal in one payload *)
+Theorem C03_webrtc_listener_header_proposal :
+  forall ls p b, wf_name p -> webrtc_encode (MProto p) true = Some b ->
+  match l_find ls p with
+  | Some i => exists reply, webrtc_encode (MProto p) true = Some reply /\
+                            webrtc_listener ls b false = WLAccepted i reply
+  | None => exists reply, webrtc_encode MNa true = Some reply /\
+                          webrtc_listener ls b false = WLRejected reply
+  end.
+Proof. exact webrtc_listener_header_proposal. Qed.
+Print Assumptions C03_webrtc_listener_header_proposal.
+
+(* proposal after the header was exchanged *)
+Theorem C03_webrtc_listener_proposal_after_header :
+  forall ls p b, wf_name p -> webrtc_encode (MProto p) false = Some b ->
+  match l_find ls p with
+  | Some i => exists reply, webrtc_encode (MProto p) false = Some reply /\
+                            webrtc_listener ls b true = WLAccepted i reply
+  | None => exists reply, webrtc_encode MNa false = Some reply /\
+                          webrtc_listener ls b true = WLRejected reply
+  end.
+Proof. exact webrtc_listener_proposal_after_header. Qed.
+Print Assumptions C03_webrtc_listener_proposal_after_header.
+
+(* header alone: echoed, the proposal is awaited *)
+Theorem C03_webrtc_listener_header_alone :
+  forall ls, webrtc_listener ls (uvi_enc (len MSG_HEADER) ++ MSG_HEADER) false =
+             WLPendingProtocol (uvi_enc (len MSG_HEADER) ++ MSG_HEADER).
+Proof. exact webrtc_listener_header_alone. Qed.
+Print Assumptions C03_webrtc_listener_header_alone.
+
+(* trailing bytes after the proposal are rejected *)
+Theorem C03_webrtc_listener_trailing_rejected :
+  forall ls p hdr b extra, wf_name p -> webrtc_encode (MProto p) (negb hdr) = Some b ->
+  extra <> [] -> webrtc_listener ls (b ++ extra) hdr = WLErr 1.
+Proof. exact webrtc_listener_trailing_rejected. Qed.
+Print Assumptions C03_webrtc_listener_trailing_rejected.
+
+(* the dialer's verdict does not depend on how the listener's bytes are grouped into payloads *)
+Theorem C03_webrtc_dialer_grouping :
+  forall p rest, rest <> [] ->
+  let '(w1, r1) := webrtc_dialer_register (S (length hdr_part)) p false hdr_part in
+  r1 = WDNotReady /\
+  webrtc_dialer_register (S (length rest)) p w1 rest =
+  webrtc_dialer_register (S (length (hdr_part ++ rest))) p false (hdr_part ++ rest).
+Proof. exact webrtc_dialer_grouping. Qed.
+Print Assumptions C03_webrtc_dialer_grouping.
+
+(* a whole session (main name p, fallbacks fs in order, listener set ls): the dialer ends with
+   the first of p :: fs that the listener supports, the listener accepted exactly that name
+   (first position in its own list), names are proposed in order and none after acceptance *)
+Theorem C03_webrtc_session_agreement :
+  forall ls p fs, Forall wfw (p :: fs) ->
+  let sup := ws_supported (tag_from 0 ls) in
+  let r := webrtc_session ls p fs in
+  ws_dialer r = find sup (p :: fs) /\
+  ws_listener r = match find sup (p :: fs) with
+                  | Some q => l_find (tag_from 0 ls) q
+                  | None => None
+                  end /\
+  ws_proposed r = take_until sup (p :: fs).
+Proof. exact webrtc_session_agreement. Qed.
+Print Assumptions C03_webrtc_session_agreement.
+
+(* ---- layer 6: fallback name -> main protocol (ProtocolSet::report_substream_open) *)
+Theorem C03_fallback_reported_to_main :
+  forall cfg m fs f, wf_cfg cfg -> In (m, fs) cfg -> In f fs -> report cfg f = Some (m, Some f).
+Proof. exact Fallback.C03_fallback_reported_to_main. Qed.
+Print Assumptions C03_fallback_reported_to_main.
+
+Theorem C03_main_reported_as_main :
+  forall cfg m, wf_cfg cfg -> In m (mains cfg) -> report cfg m = Some (m, None).
+Proof. exact Fallback.C03_main_reported_as_main. Qed.
+Print Assumptions C03_main_reported_as_main.
+
+Theorem C03_unknown_not_supported :
+  forall cfg n, ~ In n (mains cfg) -> ~ In n (fallbacks cfg) -> report cfg n = None.
+Proof. exact Fallback.C03_unknown_not_supported. Qed.
+Print Assumptions C03_unknown_not_supported.
+
+(* every name offered for negotiation is reported under an installed main protocol, for ANY
+   configuration *)
+Theorem C03_offered_always_supported :
+  forall cfg n, In n (offered cfg) ->
+  exists m fb, report cfg n = Some (m, fb) /\ In m (mains cfg).
+Proof. exact Fallback.C03_offered_always_supported. Qed.
+Print Assumptions C03_offered_always_supported.
+
 (* ---- non-vacuity: the byte-level system on a concrete case, one byte per read and write,
    Pending injections, listener polled first: agreement on "/b" (dialer index 1, listener index
    0) and both payloads delivered unchanged with nothing left in the pipes. *)
@@ -119,8 +364,7 @@ Example C03_bytelevel_example :
   p_buf (s_dl s) = [] /\ p_buf (s_ld s) = [].
 Proof. vm_compute. repeat split; reflexivity. Qed.
 
-(* ---- the optimistic variant (V1Lazy; not used by litep2p's transports): the documented
-   pitfall, kept explicit. The dialer settles on "/a" which the listener does not support; its
+(* ---- the same pitfall on the byte-level model (V1Lazy is not used by litep2p's transports). The dialer settles on "/a" which the listener does not support; its
    first application bytes look like a proposal of "/b": the listener accepts "/b", the dialer
    learns of the failure (error 1 = Failed) on its first read. So for V1Lazy only the dialer
    half of agreement is claimed (see prop_ok in Glue.v). *)
